@@ -66,7 +66,7 @@ func init() {
 				})
 			})
 		}
-		c.MinCount("R11g", "stores to Process.Variables", n, 7)
+		c.MinCount("R11g", "stores to Process.Variables", n, 4)
 
 		// NewVariables is fresh
 		fd, pk := c.MustFunc("R11g", "lang", "", "NewVariables")
